@@ -137,7 +137,17 @@ func (p *c10) build(levels int, kinds [][]int, layout int, nameForm int, flag bo
 				ext = mt.Cond{C: mt.V("t_yes"), A: mt.S(fmt.Sprintf("t%d", lv-1)), B: mt.S("nope")}
 			}
 		}
-		body := []mt.Stmt{mt.Extends{E: ext}, mt.T("\nignored text\n"), mt.Set{Name: fmt.Sprintf("tv%d", lv), E: mt.S(fmt.Sprintf("TV%d", lv))},
+		// the top-level assignment stands alone, or inside a condition / a loop that holds nothing but assignments
+		var tvSet mt.Stmt = mt.Set{Name: fmt.Sprintf("tv%d", lv), E: mt.S(fmt.Sprintf("TV%d", lv))}
+		switch (lv*5 + layout + len(kinds)*3) % 4 {
+		case 1:
+			tvSet = mt.If{Conds: []mt.Expr{mt.V("t_yes")}, Bodies: [][]mt.Stmt{{mt.T(" "), tvSet}}}
+		case 2:
+			tvSet = mt.If{Conds: []mt.Expr{mt.V("no_such_variable")}, Bodies: [][]mt.Stmt{{mt.Set{Name: fmt.Sprintf("tv%d", lv), E: mt.S("WRONG")}}}, HasElse: true, Else: []mt.Stmt{tvSet}}
+		case 3:
+			tvSet = mt.For{Val: "q", Seq: mt.V("xs"), Body: []mt.Stmt{mt.If{Conds: []mt.Expr{mt.V("t_yes")}, Bodies: [][]mt.Stmt{{tvSet}}}}}
+		}
+		body := []mt.Stmt{mt.Extends{E: ext}, mt.T("\nignored text\n"), tvSet,
 			mt.Macro{Name: fmt.Sprintf("tm%d", lv), Params: []string{"q"}, Body: []mt.Stmt{mt.T("<TM"), mt.P(mt.V("q")), mt.T(">")}}}
 		// more things outside the blocks of an extending template, none of which may produce output
 		switch (lv*7 + layout*3 + len(kinds)) % 5 {
